@@ -3,27 +3,27 @@
 and write seeded/MATRIX.md from the confirmation and detection logs."""
 import json, os, re, shutil, sys
 SRC, DST = "/tmp/seedout", "/verif/seeded"
-SOURCES = [("/tmp/seedout", ""), ("/tmp/seedout2", "r2-"), ("/tmp/seedout3", "r3-")]
+SOURCES = [("/tmp/seedout", ""), ("/tmp/seedout2", "r2-"), ("/tmp/seedout3", "r3-"), ("/tmp/seedout4", "r4-")]
 confirm = {}
 for l in open("/tmp/confirm.log"):
     f = l.split()
     if f:
         confirm[f[0]] = " ".join(f[1:])
-for extra in ("/tmp/confirm_extra.log", "/tmp/confirm2.log", "/tmp/confirm3.log"):
+for extra in ("/tmp/confirm_extra.log", "/tmp/confirm2.log", "/tmp/confirm3.log", "/tmp/confirm4.log"):
     if os.path.exists(extra):
         for l in open(extra):
             f = l.split()
             if f:
                 confirm[f[0]] = " ".join(f[1:])
 matrix = {}
-for ml in ("/tmp/matrix.log", "/tmp/matrix4.log", "/tmp/matrix6.log"):
+for ml in ("/tmp/matrix.log", "/tmp/matrix4.log", "/tmp/matrix6.log", "/tmp/matrix9.log"):
     if os.path.exists(ml):
         for l in open(ml):
             f = l.split()
             if len(f) >= 3:
                 matrix.setdefault(f[0], []).append(" ".join(f[1:]))
 first_round2 = {}
-for ml in ("/tmp/matrix2.log", "/tmp/matrix3.log", "/tmp/matrix5.log"):
+for ml in ("/tmp/matrix2.log", "/tmp/matrix3.log", "/tmp/matrix5.log", "/tmp/matrix8.log"):
     if os.path.exists(ml):
         for l in open(ml):
             f = l.split()
@@ -60,6 +60,8 @@ for SRC, tagp in SOURCES:
             meta["note"] = "valid against the pinned commit a1a994a (16/16 tests pass there, see check.log of the author); after fix 75766a4 changed compressed sizes the pinned igzip_rand_test trips over it as well"
         if sid == "C07-1":
             meta["note"] = "does not apply after fix 091861d (same lines); rebased as C07-1r"
+        if sid == "C14-r4-1":
+            meta["note"] = "NOT detected by any check, deliberately: it needs a one-shot call retried on the same struct without re-initialisation after STATELESS_OVERFLOW; the unchanged library does not support that pattern either (a retried gzip/zlib one-shot call returns COMP_OK for a stream without wrapper header), nothing documents it and no listed property claims it (DESIGN.md section 5)"
         json.dump(meta, open(os.path.join(out, "meta.json"), "w"), indent=1)
         rows.append((sid, ",".join(files)[:70], confirm.get(d, "")[:70], "; ".join(matrix.get(d, []))[:110]))
 with open(os.path.join(DST, "MATRIX.md"), "w") as f:
